@@ -44,6 +44,9 @@ pub fn run(ctx: &Ctx) -> i32 {
         let b = build_map(n, 5, 1);
         let fa = Fst::new(&a[..]).unwrap();
         let fb = Fst::new(&b[..]).unwrap();
+        let evens = build_map(n, 2, 0);
+        let odds = build_map(n, 2, 1);
+        let (fe, fo) = (Fst::new(&evens[..]).unwrap(), Fst::new(&odds[..]).unwrap());
         let lo = format!("{:010}", n * 3 / 20);
         let hi = format!("{:010}", n * 3 - n * 3 / 20);
         let long_lo = format!("{}{}", lo, "/".repeat(60));
@@ -156,9 +159,6 @@ pub fn run(ctx: &Ctx) -> i32 {
         }
         // operations whose ONE call to next() has to skip over ~N candidate keys before it can answer: intersections of (nearly)
         // disjoint inputs, symmetric differences and differences of identical inputs, and the relations built on them
-        let evens = build_map(n, 2, 0);
-        let odds = build_map(n, 2, 1);
-        let (fe, fo) = (Fst::new(&evens[..]).unwrap(), Fst::new(&odds[..]).unwrap());
         {
             let (fa, fe, fo) = (&fa, &fe, &fo);
             macro_rules! count {
